@@ -44,13 +44,14 @@ Separates(n, rs, cs, ax, b2, bo2) ==      \* b2: doubled border on this axis, bo
     LET LP == LongestPaths(n, cs)
     IN  \A a \in 1..n, b \in 1..n : (a < b /\ CrossOverlap(rs[a], rs[b], ax, bo2)) =>
             (LP[<<a, b>>] >= HalfSum(rs[a], rs[b], ax, b2) \/ LP[<<b, a>>] >= HalfSum(rs[a], rs[b], ax, b2))
+\* (generator tags are <<0, name>>, run tags <<run index, name>>: TLC cannot hold strings and tuples in one set)
 GenTags(r) ==
     IF ~r.gen THEN {} ELSE      \* very large sets are recorded without their constraint sets
-    (IF Acyclic(r.n, r.cxn) THEN {} ELSE {"genX-neighbours-cyclic"})
-    \cup (IF Acyclic(r.n, r.cx) THEN {} ELSE {"genX-cyclic"})
-    \cup (IF Acyclic(r.n, r.cy) THEN {} ELSE {"genY-cyclic"})
-    \cup (IF Acyclic(r.n, r.cx) /\ ~Separates(r.n, r.rin2, r.cx, 1, r.b2[1], r.b2[2]) THEN {"genX-admits-overlap"} ELSE {})
-    \cup (IF Acyclic(r.n, r.cy) /\ ~Separates(r.n, r.rin2, r.cy, 2, r.b2[2], r.b2[1]) THEN {"genY-admits-overlap"} ELSE {})
+    (IF Acyclic(r.n, r.cxn) THEN {} ELSE {<<0, "genX-neighbours-cyclic">>})
+    \cup (IF Acyclic(r.n, r.cx) THEN {} ELSE {<<0, "genX-cyclic">>})
+    \cup (IF Acyclic(r.n, r.cy) THEN {} ELSE {<<0, "genY-cyclic">>})
+    \cup (IF Acyclic(r.n, r.cx) /\ ~Separates(r.n, r.rin2, r.cx, 1, r.b2[1], r.b2[2]) THEN {<<0, "genX-admits-overlap">>} ELSE {})
+    \cup (IF Acyclic(r.n, r.cy) /\ ~Separates(r.n, r.rin2, r.cy, 2, r.b2[2], r.b2[1]) THEN {<<0, "genY-admits-overlap">>} ELSE {})
 
 \* ---- results of removeoverlaps: run.out[i] = <<x, X, y, Y>> * S -------------
 OvX(a, b) == Mn(a[2], b[2]) - Mx(a[1], b[1])
